@@ -3,6 +3,7 @@ Directed-edge structure of the quad strips the mesh builders emit, and the gluin
 makes a capped strip a closed surface (at the level of edge multisets).
 -/
 import Mathlib.Data.List.Rotate
+import Mathlib.Data.List.Nodup
 import Mathlib.Data.List.Perm.Basic
 import ScadVerif.Model.Dim3
 import ScadVerif.Spec.Mesh
@@ -610,5 +611,311 @@ theorem capped_strip_closed' (n lo hi : Nat) (capLo capHi : List Edge)
   omega
 
 end Caps
+
+/-! ### no directed edge twice in a whole revolve / closed sweep; the oracle's Boolean -/
+theorem inRing_unique (n a b v : Nat) (ha : InRing n a v) (hb : InRing n b v) : a = b := by
+  by_contra hne
+  exact rings_disjoint n a b v hne ⟨ha, hb⟩
+
+/-- in a ring of at least three vertices no directed boundary edge is the reverse of another -/
+theorem ringF_swap_disjoint (n r : Nat) (hn : 3 ≤ n) (e : Edge) (h1 : e ∈ ringF n r) (h2 : e.swap ∈ ringF n r) : False := by
+  simp only [ringF, List.mem_map, List.mem_range] at h1 h2
+  obtain ⟨i, hi, rfl⟩ := h1
+  obtain ⟨k, hk, hke⟩ := h2
+  simp only [Prod.swap_prod_mk, Prod.mk.injEq] at hke
+  have e1 : k = (i + 1) % n := by omega
+  have e2 : (k + 1) % n = i := by omega
+  by_cases hi1 : i + 1 < n
+  · rw [Nat.mod_eq_of_lt hi1] at e1
+    subst e1
+    by_cases hi2 : i + 1 + 1 < n
+    · rw [Nat.mod_eq_of_lt hi2] at e2; omega
+    · have : i + 1 + 1 = n := by omega
+      rw [this, Nat.mod_self] at e2; omega
+  · have : i + 1 = n := by omega
+    rw [this, Nat.mod_self] at e1
+    subst e1
+    rw [Nat.mod_eq_of_lt (by omega)] at e2; omega
+
+/-- the directed edges of a revolve strip, by kind -/
+theorem stripRev_edge_kind (n lo hi : Nat) (e : Edge) (h : e ∈ allEdges (stripRev n lo hi)) :
+    (InRing n lo e.1 ∧ InRing n hi e.2) ∨ (e ∈ ringF n hi) ∨ (InRing n hi e.1 ∧ InRing n lo e.2) ∨
+      (e.swap ∈ ringF n lo) := by
+  have := (stripRev_edges n lo hi).subset h
+  simp only [List.mem_append] at this
+  rcases this with ((h1 | h2) | h3) | h4
+  · exact Or.inl (ups_mem n lo hi e h1)
+  · exact Or.inr (Or.inl h2)
+  · rw [mem_map_swap] at h3
+    have := ups_mem n lo hi _ h3
+    exact Or.inr (Or.inr (Or.inl ⟨this.2, this.1⟩))
+  · rw [mem_map_swap] at h4
+    exact Or.inr (Or.inr (Or.inr h4))
+
+theorem stripRev_edges_nodup (n lo hi : Nat) (h : lo ≠ hi) : (allEdges (stripRev n lo hi)).Nodup := by
+  rw [(stripRev_edges n lo hi).nodup_iff]
+  have hd := fun v => rings_disjoint n lo hi v h
+  rw [List.nodup_append, List.nodup_append, List.nodup_append]
+  refine ⟨⟨⟨ups_nodup n lo hi, ringF_nodup n hi, ?_⟩, nodup_map_swap _ (ups_nodup n lo hi), ?_⟩,
+    nodup_map_swap _ (ringF_nodup n lo), ?_⟩
+  · intro a ha b hb hab
+    subst hab
+    exact hd a.1 ⟨(ups_mem n lo hi a ha).1, (ringF_mem n hi a hb).1⟩
+  · intro a ha b hb hab
+    subst hab
+    rw [mem_map_swap] at hb
+    have hb' := ups_mem n lo hi _ hb
+    simp only [Prod.fst_swap, Prod.snd_swap] at hb'
+    rcases List.mem_append.mp ha with ha | ha
+    · exact hd a.1 ⟨(ups_mem n lo hi a ha).1, hb'.2⟩
+    · exact hd a.2 ⟨hb'.1, (ringF_mem n hi a ha).2⟩
+  · intro a ha b hb hab
+    subst hab
+    rw [mem_map_swap] at hb
+    have hb' := ringF_mem n lo _ hb
+    simp only [Prod.fst_swap, Prod.snd_swap] at hb'
+    rcases List.mem_append.mp ha with ha | ha
+    · rcases List.mem_append.mp ha with ha | ha
+      · exact hd a.2 ⟨hb'.1, (ups_mem n lo hi a ha).2⟩
+      · exact hd a.1 ⟨hb'.2, (ringF_mem n hi a ha).1⟩
+    · rw [mem_map_swap] at ha
+      have ha' := ups_mem n lo hi _ ha
+      simp only [Prod.fst_swap, Prod.snd_swap] at ha'
+      exact hd a.1 ⟨hb'.2, ha'.2⟩
+
+
+/-- ring indices of the two endpoints of an edge of a revolve strip -/
+theorem stripRev_edge_rings (n lo hi : Nat) (e : Edge) (h : e ∈ allEdges (stripRev n lo hi)) :
+    ∃ r1 r2, InRing n r1 e.1 ∧ InRing n r2 e.2 ∧
+      ((r1 = lo ∧ r2 = hi) ∨ (r1 = hi ∧ r2 = hi ∧ e ∈ ringF n hi) ∨ (r1 = hi ∧ r2 = lo) ∨
+        (r1 = lo ∧ r2 = lo ∧ e.swap ∈ ringF n lo)) := by
+  rcases stripRev_edge_kind n lo hi e h with h1 | h2 | h3 | h4
+  · exact ⟨lo, hi, h1.1, h1.2, Or.inl ⟨rfl, rfl⟩⟩
+  · have := ringF_mem n hi e h2
+    exact ⟨hi, hi, this.1, this.2, Or.inr (Or.inl ⟨rfl, rfl, h2⟩)⟩
+  · exact ⟨hi, lo, h3.1, h3.2, Or.inr (Or.inr (Or.inl ⟨rfl, rfl⟩))⟩
+  · have := ringF_mem n lo _ h4
+    simp only [Prod.fst_swap, Prod.snd_swap] at this
+    exact ⟨lo, lo, this.2, this.1, Or.inr (Or.inr (Or.inr ⟨rfl, rfl, h4⟩))⟩
+
+/-- two different strips of a full revolve share no directed edge -/
+theorem revolve_strips_disjoint (n seg j k : Nat) (hn : 3 ≤ n) (hseg : 3 ≤ seg) (hjk : j < k) (hk : k < seg)
+    (e : Edge) (h1 : e ∈ allEdges (stripRev n j ((j + 1) % seg)))
+    (h2 : e ∈ allEdges (stripRev n k ((k + 1) % seg))) : False := by
+  have hj' : (j + 1) % seg = j + 1 := Nat.mod_eq_of_lt (by omega)
+  rw [hj'] at h1
+  obtain ⟨a1, a2, ha1, ha2, hA⟩ := stripRev_edge_rings n j (j + 1) e h1
+  obtain ⟨b1, b2, hb1, hb2, hB⟩ := stripRev_edge_rings n k ((k + 1) % seg) e h2
+  have e1 := inRing_unique n a1 b1 e.1 ha1 hb1
+  have e2 := inRing_unique n a2 b2 e.2 ha2 hb2
+  by_cases hk1 : k + 1 < seg
+  · rw [Nat.mod_eq_of_lt hk1] at hB
+    rcases hA with ⟨p1, p2⟩ | ⟨p1, p2, pm⟩ | ⟨p1, p2⟩ | ⟨p1, p2, pm⟩ <;>
+    rcases hB with ⟨q1, q2⟩ | ⟨q1, q2, qm⟩ | ⟨q1, q2⟩ | ⟨q1, q2, qm⟩ <;>
+    first
+    | omega
+    | (have hjk' : j + 1 = k := by omega
+       subst hjk'
+       exact ringF_swap_disjoint n (j + 1) hn e pm qm)
+  · have hk2 : k + 1 = seg := by omega
+    rw [hk2, Nat.mod_self] at hB
+    rcases hA with ⟨p1, p2⟩ | ⟨p1, p2, pm⟩ | ⟨p1, p2⟩ | ⟨p1, p2, pm⟩ <;>
+    rcases hB with ⟨q1, q2⟩ | ⟨q1, q2, qm⟩ | ⟨q1, q2⟩ | ⟨q1, q2, qm⟩ <;>
+    first
+    | omega
+    | (have hjk' : j + 1 = k := by omega
+       subst hjk'
+       exact ringF_swap_disjoint n (j + 1) hn e pm qm)
+    | (have hj0 : j = 0 := by omega
+       subst hj0
+       have : (e.swap).swap ∈ ringF n 0 := by simpa using qm
+       exact ringF_swap_disjoint n 0 hn e.swap pm this)
+
+
+/-- the strips of a full revolve, uniformly: strip `j` joins ring `j` to ring `(j+1) mod segments` -/
+def fullStrips (n seg : Nat) : List (List Nat) := (List.range seg).flatMap fun j => stripRev n j ((j + 1) % seg)
+
+theorem fullStrips_eq (n seg : Nat) (hseg : 1 ≤ seg) :
+    revolveBody n (seg - 1) ++ stripRev n (seg - 1) 0 = fullStrips n seg := by
+  unfold fullStrips revolveBody
+  have hs : seg = (seg - 1) + 1 := by omega
+  conv_rhs => rw [hs, List.range_succ, List.flatMap_append]
+  congr 1
+  · apply List.flatMap_congr
+    intro j hj
+    simp only [List.mem_range] at hj
+    rw [← hs, Nat.mod_eq_of_lt (by omega)]
+  · simp only [List.flatMap_cons, List.flatMap_nil, List.append_nil]
+    rw [Nat.mod_self]
+
+theorem allEdges_flatMap {β : Type} (l : List β) (f : β → List (List Nat)) :
+    allEdges (l.flatMap f) = l.flatMap fun x => allEdges (f x) := by
+  simp [allEdges, List.flatMap_assoc]
+
+/-- **no directed edge occurs twice in a full revolve** (profiles of at least three points, at least
+three segments) -/
+theorem fullStrips_nodup (n seg : Nat) (hn : 3 ≤ n) (hseg : 3 ≤ seg) : (allEdges (fullStrips n seg)).Nodup := by
+  unfold fullStrips
+  rw [allEdges_flatMap, List.nodup_flatMap]
+  constructor
+  · intro j hj
+    simp only [List.mem_range] at hj
+    apply stripRev_edges_nodup
+    by_cases h : j + 1 < seg
+    · rw [Nat.mod_eq_of_lt h]; omega
+    · have : j + 1 = seg := by omega
+      rw [this, Nat.mod_self]; omega
+  · have hp : (List.range seg).Pairwise (· < ·) := List.pairwise_lt_range
+    refine List.Pairwise.imp_of_mem ?_ hp
+    intro j k hj hk hjk
+    simp only [List.mem_range] at hk
+    simp only [Function.onFun]
+    rw [List.disjoint_left]
+    intro e h1 h2
+    exact revolve_strips_disjoint n seg j k hn hseg hjk hk e h1 h2
+
+
+/-! ### from edge multisets to the oracle's Boolean -/
+theorem sortedNodup_of_nodup : ∀ l : List Nat, l.Nodup → sortedNodup l = true
+  | [], _ => rfl
+  | [_], _ => rfl
+  | a :: b :: rest, h => by
+    simp only [sortedNodup, Bool.and_eq_true, bne_iff_ne, ne_eq]
+    refine ⟨?_, sortedNodup_of_nodup (b :: rest) (List.nodup_cons.mp h).2⟩
+    intro hab; subst hab
+    exact (List.nodup_cons.mp h).1 (by simp)
+
+theorem le_trans' : ∀ a b c : Nat, decide (a ≤ b) = true → decide (b ≤ c) = true → decide (a ≤ c) = true := by
+  intro a b c h1 h2; simp only [decide_eq_true_eq] at *; omega
+theorem le_total' : ∀ a b : Nat, (decide (a ≤ b) || decide (b ≤ a)) = true := by
+  intro a b; simp only [Bool.or_eq_true, decide_eq_true_eq]; omega
+
+theorem mergeSort_eq_of_perm (l₁ l₂ : List Nat) (h : l₁.Perm l₂) :
+    l₁.mergeSort (· ≤ ·) = l₂.mergeSort (· ≤ ·) := by
+  apply List.Perm.eq_of_pairwise (le := fun a b => decide (a ≤ b) = true)
+  · intro a b _ _ h1 h2; simp only [decide_eq_true_eq] at h1 h2; omega
+  · exact List.pairwise_mergeSort le_trans' le_total' l₁
+  · exact List.pairwise_mergeSort le_trans' le_total' l₂
+  · exact (List.mergeSort_perm l₁ _).trans (h.trans (List.mergeSort_perm l₂ _).symm)
+
+theorem edgeKey_inj (m : Nat) (e f : Edge) (he : e.2 < m) (hf : f.2 < m) (h : edgeKey m e = edgeKey m f) : e = f := by
+  unfold edgeKey at h
+  have h1 : (e.1 * m + e.2) / m = (f.1 * m + f.2) / m := by rw [h]
+  have h2 : (e.1 * m + e.2) % m = (f.1 * m + f.2) % m := by rw [h]
+  have hm : 0 < m := by omega
+  rw [Nat.mul_comm e.1, Nat.mul_comm f.1, Nat.mul_add_div hm, Nat.mul_add_div hm,
+    Nat.div_eq_of_lt he, Nat.div_eq_of_lt hf] at h1
+  rw [Nat.mul_comm e.1, Nat.mul_comm f.1, Nat.mul_add_mod, Nat.mul_add_mod, Nat.mod_eq_of_lt he,
+    Nat.mod_eq_of_lt hf] at h2
+  exact Prod.ext (by omega) h2
+
+/-- every endpoint of every edge of a face list is a vertex of some face -/
+theorem mem_allEdges (faces : List (List Nat)) (e : Edge) (h : e ∈ allEdges faces) :
+    ∃ f ∈ faces, e.1 ∈ f ∧ e.2 ∈ f := by
+  simp only [allEdges, List.mem_flatMap] at h
+  obtain ⟨f, hf, he⟩ := h
+  refine ⟨f, hf, ?_⟩
+  cases f with
+  | nil => simp [faceEdges] at he
+  | cons v0 rest =>
+    have : ∀ (l : List Nat) (e : Edge), e ∈ faceEdges.go v0 l → (e.1 ∈ l) ∧ (e.2 ∈ l ∨ e.2 = v0) := by
+      intro l
+      induction l with
+      | nil => intro e he; simp [faceEdges.go] at he
+      | cons a t ih =>
+        intro e he
+        cases t with
+        | nil =>
+          simp only [faceEdges.go, List.mem_singleton] at he
+          subst he; simp
+        | cons b t' =>
+          simp only [faceEdges.go, List.mem_cons] at he
+          rcases he with rfl | he
+          · simp
+          · have := ih e he
+            exact ⟨by simp [this.1], by rcases this.2 with h | h <;> simp_all⟩
+    have := this (v0 :: rest) e (by simpa [faceEdges] using he)
+    exact ⟨this.1, by rcases this.2 with h | h; exact h; simp [h]⟩
+
+/-- **from the edge-multiset statements to the oracle's Boolean**: a face list with valid indices,
+faces of at least three distinct vertices, no directed edge twice, and every directed edge matched
+by its reverse satisfies `closedOriented` — the predicate the Lean oracle evaluates on every mesh -/
+theorem closedOriented_of (n : Nat) (faces : List (List Nat))
+    (hv : ∀ f ∈ faces, 3 ≤ f.length ∧ (∀ v ∈ f, v < n) ∧ f.Nodup)
+    (hnd : (allEdges faces).Nodup) (hcl : EdgeClosed (allEdges faces)) :
+    closedOriented n faces = true := by
+  unfold closedOriented
+  simp only [Bool.and_eq_true, List.all_eq_true, decide_eq_true_eq, beq_iff_eq]
+  refine ⟨⟨?_, ?_⟩, ?_⟩
+  · intro f hf
+    obtain ⟨h3, hlt, hnd'⟩ := hv f hf
+    refine ⟨⟨h3, fun v hvm => hlt v hvm⟩, ?_⟩
+    unfold pairwiseDistinct
+    exact sortedNodup_of_nodup _ ((List.mergeSort_perm f _).nodup_iff.mpr hnd')
+  · apply sortedNodup_of_nodup
+    rw [(List.mergeSort_perm _ _).nodup_iff]
+    apply List.Nodup.map_on _ hnd
+    intro e he f hf hk
+    obtain ⟨fe, hfe, _, he2⟩ := mem_allEdges faces e he
+    obtain ⟨ff, hff, _, hf2⟩ := mem_allEdges faces f hf
+    exact edgeKey_inj (n + 1) e f (by have := (hv fe hfe).2.1 _ he2; omega)
+      (by have := (hv ff hff).2.1 _ hf2; omega) hk
+  · apply mergeSort_eq_of_perm
+    have : (allEdges faces).map (fun e => edgeKey (n + 1) (e.2, e.1)) =
+        ((allEdges faces).map Prod.swap).map (edgeKey (n + 1)) := by
+      simp [List.map_map, Function.comp_def]
+    rw [this]
+    exact (hcl.map _).symm
+
+
+/-! ### sweep strips are revolve strips read backwards -/
+theorem strip_swap_perm (n lo hi : Nat) :
+    (allEdges (strip n lo hi)).Perm ((allEdges (stripRev n lo hi)).map Prod.swap) := by
+  refine (strip_edges n lo hi).trans (List.Perm.trans ?_ ((stripRev_edges n lo hi).map _).symm)
+  simp only [List.map_append, swap_swap_map]
+  rw [List.perm_iff_count]
+  intro x
+  simp only [List.count_append]
+  omega
+
+/-- the strips of a closed sweep, uniformly -/
+def closedStrips (n len : Nat) : List (List Nat) := (List.range len).flatMap fun j => strip n j ((j + 1) % len)
+
+theorem closedStrips_eq (n len : Nat) (hl : 1 ≤ len) :
+    sweepBody n (len - 1) ++ strip n (len - 1) 0 = closedStrips n len := by
+  unfold closedStrips sweepBody
+  have hs : len = (len - 1) + 1 := by omega
+  conv_rhs => rw [hs, List.range_succ, List.flatMap_append]
+  congr 1
+  · apply List.flatMap_congr
+    intro j hj
+    simp only [List.mem_range] at hj
+    rw [← hs, Nat.mod_eq_of_lt (by omega)]
+  · simp only [List.flatMap_cons, List.flatMap_nil, List.append_nil]
+    rw [Nat.mod_self]
+
+theorem closedStrips_nodup (n len : Nat) (hn : 3 ≤ n) (hl : 3 ≤ len) : (allEdges (closedStrips n len)).Nodup := by
+  unfold closedStrips
+  rw [allEdges_flatMap, List.nodup_flatMap]
+  constructor
+  · intro j hj
+    simp only [List.mem_range] at hj
+    apply strip_edges_nodup
+    by_cases h : j + 1 < len
+    · rw [Nat.mod_eq_of_lt h]; omega
+    · have : j + 1 = len := by omega
+      rw [this, Nat.mod_self]; omega
+  · have hp : (List.range len).Pairwise (· < ·) := List.pairwise_lt_range
+    refine List.Pairwise.imp_of_mem ?_ hp
+    intro j k hj hk hjk
+    simp only [List.mem_range] at hk
+    simp only [Function.onFun]
+    rw [List.disjoint_left]
+    intro e h1 h2
+    have g1 := (strip_swap_perm n j ((j + 1) % len)).subset h1
+    have g2 := (strip_swap_perm n k ((k + 1) % len)).subset h2
+    rw [mem_map_swap] at g1 g2
+    exact revolve_strips_disjoint n len j k hn hl hjk hk e.swap g1 g2
+
 
 end ScadVerif.MeshLemmas
